@@ -61,6 +61,8 @@ def gen_program(rnd, o):
                     pass
             hd['prio'] = 0
             hd['chan'] = None
+        if shape != 'implicit' and rnd.random() < o.get('p_noevent', 0.0):
+            hd['noevent'] = True
         if shape == 'plain' and rnd.random() < o.get('p_dynamic', 0.0):
             hd['live0'] = False
             dyn.append(h)
@@ -120,7 +122,7 @@ def gen_script(rnd, o, nm, names, ncomp, handlers, dyn, sops, flags):
         elif op == 'flush':
             ops.append(['flush'])
         elif op == 'raise':
-            ops.append(['raise'])
+            ops.append(['raiseb'] if rnd.random() < o.get('p_raise_base', 0.0) else ['raise'])
             break
         elif op == 'ret':
             ops.append(['ret', rnd.choice([1, 2, 3, 4, 5, 6, 7, 8, 9, 1000])])     # 1000: the falsy result 0
@@ -173,6 +175,9 @@ def gen_history(rnd, o, prog):
                 hist.append(['reg', c, p])
                 par[c] = p
     names = NAMES[:o.get('nnames', 3)]
+    if o.get('p_age', 0) and rnd.random() < o['p_age']:
+        # the root has been running for a while: its sequence counter is close to 2**16 / 2**31
+        hist.insert(0, ['age', 1, rnd.choice([65530, 65533, 2 ** 31 - 4])])
     hops = o.get('hist_ops', ['fire', 'flush'])
     nfired = 0
     for _ in range(rnd.randint(*o.get('histlen', (2, 6)))):
